@@ -87,6 +87,14 @@ One can reverse a captured panic stack trace as follows:
 					addHashedWithPackage(node.Name.Name)
 				case *ast.Field:
 					for _, name := range node.Names {
+						if fn, _ := tf.info.ObjectOf(name).(*types.Func); fn != nil {
+							// An interface method, which needs no func declaration
+							// in this package to be obfuscated.
+							if newName, ok := tf.obfuscatedObjectName(fn); ok {
+								replaces = append(replaces, newName, name.Name)
+							}
+							continue
+						}
 						obj, _ := tf.info.ObjectOf(name).(*types.Var)
 						if obj == nil || !obj.IsField() {
 							continue
